@@ -378,6 +378,7 @@ class Stats:
         self.branch_queries = 0
         self.assert_queries = 0
         self.model_queries = 0
+        self.fallback_queries = 0
         self.obligations = 0
         self.discharged = 0
         self.solver_s = 0.0
@@ -395,12 +396,15 @@ class Engine:
     """Symbolic context + DFS explorer.  One per job."""
     mode = 'sym'
 
-    def __init__(self, logic=None, solver_timeout_ms=20000, watchdog_s=20.0):
+    def __init__(self, logic=None, solver_timeout_ms=1500, watchdog_s=60.0):
         if logic:
             self.solver = z3.SolverFor(logic)
         else:
             self.solver = z3.Solver()
         self.solver.set('timeout', solver_timeout_ms)
+        self.solver_timeout_ms = solver_timeout_ms
+        self.fallback_timeout_ms = 30000
+        self._fresh_model = None
         self.stats = Stats()
         self.stack = []
         self.scopes = []      # trace positions of the solver scopes
@@ -436,9 +440,22 @@ class Engine:
         if f not in self.flags:
             self.flags.append(f)
 
-    def _check(self, *assumptions, kind='branch'):
+    def _check(self, *assumptions, kind='branch', fallback=True):
         t0 = time.perf_counter()
         r = self.solver.check(*assumptions)
+        self._fresh_model = None
+        if r == z3.unknown and fallback:
+            # the incremental solver occasionally gets stuck on small mixed Int/Real
+            # problems that a fresh solver decides at once: retry non-incrementally
+            self.stats.fallback_queries += 1
+            s2 = z3.Solver()
+            s2.set('timeout', self.fallback_timeout_ms)
+            s2.add(self.solver.assertions())
+            for a in assumptions:
+                s2.add(a)
+            r = s2.check()
+            if r == z3.sat:
+                self._fresh_model = s2.model()
         self.stats.solver_s += time.perf_counter() - t0
         if kind == 'branch':
             self.stats.branch_queries += 1
@@ -448,11 +465,16 @@ class Engine:
             self.stats.model_queries += 1
         return r
 
+    def _get_model(self):
+        if self._fresh_model is not None:
+            return self._fresh_model
+        return self.solver.model()
+
     def _refresh(self):
         """make self.model a model of the current path condition"""
         r = self._check(kind='model')
         if r == z3.sat:
-            self.model = self.solver.model()
+            self.model = self._get_model()
             self.stale = False
         elif r == z3.unsat:
             self.dead = True
@@ -537,7 +559,7 @@ class Engine:
         if v is None:
             r = self._check(e)
             if r == z3.sat:
-                self.model = self.solver.model()
+                self.model = self._get_model()
                 v = True
             elif r == z3.unsat:
                 self.trace.append((False, True))
@@ -556,7 +578,7 @@ class Engine:
             return v
         if r == z3.sat:
             self.stats.decisions += 1
-            m2 = self.solver.model()
+            m2 = self._get_model()
             self.stack.append((self.trace + [(not v, False)], m2))
             self.solver.push()
             self.scopes.append(i)
@@ -682,13 +704,13 @@ class Engine:
                     self.solver.add(extra)
                 for t in reals:
                     self.solver.add(z3.IsInt(t * scale) if scale != 1 else z3.IsInt(t))
-                self.solver.set('timeout', 3000)
-                r = self._check(kind='model')
+                self.solver.set('timeout', 1500)
+                r = self._check(kind='model', fallback=False)
                 if r == z3.sat:
-                    self.model = self.solver.model()
+                    self.model = self._get_model()
                     return True
             finally:
-                self.solver.set('timeout', 20000)
+                self.solver.set('timeout', self.solver_timeout_ms)
                 self.solver.pop()
         return False
 
@@ -724,7 +746,7 @@ class Engine:
             else:
                 r = self._check(neg, kind='assert')
                 if r == z3.sat:
-                    self.model = self.solver.model()
+                    self.model = self._get_model()
                     self.nice_model(neg)
             if r == z3.sat:
                 bad = []
@@ -756,7 +778,7 @@ def _alarm(signum, frame):
 
 
 def explore(harness, cfg, max_paths=200000, max_seconds=600.0, witness_every=50,
-            witness_cap=20, logic=None, watchdog_s=20.0, profile=None, seeds=None,
+            witness_cap=20, logic=None, watchdog_s=60.0, profile=None, seeds=None,
             slice_seconds=None):
     """Enumerate every feasible path of harness(cfg).  Returns a result dict."""
     eng = Engine(logic=logic, watchdog_s=watchdog_s)
